@@ -4,6 +4,8 @@
 
 pub mod refmodel;
 pub mod source;
+pub mod alg;
+pub mod programs;
 pub mod stubs;
 pub mod util;
 pub mod cases;
@@ -11,3 +13,5 @@ pub mod registry;
 
 #[cfg(kani)]
 mod gen;
+#[cfg(kani)]
+mod probe;
